@@ -1017,6 +1017,31 @@ fn order_pool() -> Vec<String> {
   pool
 }
 
+/// DID URLs whose components differ textually although they decode alike (percent-encoding, an empty `=`, a
+/// trailing `&`, `+` for a blank): equality, ordering and hashing all have to treat them as the distinct strings
+/// they are (or all alike) — 1 DID × 2 paths × 6 queries × 2 fragments = 24 URLs, every ordered triple.
+fn order_equivalents_pool() -> Vec<String> {
+  let mut pool = Vec::new();
+  for path in ["/a", "/%61"] {
+    for query in ["?x", "?x=", "?x&", "?%78", "?a+b=1", "?a%20b=1"] {
+      for fragment in ["#f", "#%66"] {
+        pool.push(format!("did:a:1{path}{query}{fragment}"));
+      }
+    }
+  }
+  pool
+}
+
+fn order_equivalents_grid() -> impl Iterator<Item = Case> {
+  let pool = order_equivalents_pool();
+  let n = pool.len();
+  (0..n * n * n).map(move |i| Case::Order {
+    a: pool[i / (n * n)].clone(),
+    b: pool[i / n % n].clone(),
+    c: pool[i % n].clone(),
+  })
+}
+
 fn order_grid() -> impl Iterator<Item = Case> {
   let pool = order_pool();
   let n = pool.len();
@@ -1267,6 +1292,7 @@ pub fn run(ctx: &mut Ctx) {
   ctx.exhaustive("grid", move || parse_grid(depth), check);
   ctx.exhaustive("set-grid", move || set_grid(depth - 1), check);
   ctx.exhaustive("order-grid", order_grid, check);
+  ctx.exhaustive("order-equivalents", order_equivalents_grid, check);
   ctx.proptest("strings", ctx.pick(300_000, 6_000_000), parse_strategy, check);
   ctx.proptest("set-did", ctx.pick(100_000, 2_000_000), set_did_strategy, check);
   ctx.proptest("set-url", ctx.pick(200_000, 4_000_000), set_url_strategy, check);
